@@ -9,7 +9,7 @@ Local Open Scope Z_scope.
 (* after rfbNewFramebuffer the invariant of C02 holds again, with everything marked modified,
    no pending copy, and the size message scheduled for every client that supports it *)
 Theorem C16_inv_reestablished : forall st w h bpp seed,
-  Inv st -> 0 < w -> 0 < h -> bpp = 1 \/ bpp = 2 \/ bpp = 4 ->
+  Inv st -> 0 < w -> 0 < h -> fmt_ok bpp = true ->
   Inv (newfb_state st w h bpp seed) /\
   Forall (fun c => cM c = rgn_create_rect 0 0 w h /\ cC c = rgn_empty /\
                    (cUseNewFB c = true -> cNewFBPending c = true) /\
@@ -28,7 +28,7 @@ Proof. exact step_inv. Qed.
    modelled readers are sampled under ASan with the old buffer freed at once. *)
 Theorem C16_no_old_buffer_use : forall st w h bpp seed x y,
   0 <= x < w -> 0 <= y < h ->
-  fbf (newfb_state st w h bpp seed) x y = draw_value bpp seed x y /\
+  fbf (newfb_state st w h bpp seed) x y = draw_value (fmt_bpp bpp) seed x y /\
   sFBid (newfb_state st w h bpp seed) = sFBid st + 1.
 Proof. exact newfb_content. Qed.
 
@@ -76,7 +76,7 @@ Proof. exact send_rects_inside. Qed.
 Theorem C16_translate_follows_depth : forall st w h bpp seed c x y,
   0 <= x < w -> 0 <= y < h ->
   fb_for (newfb_state st w h bpp seed) (newfb_client w h c) x y =
-  translate bpp (cBpp c) (draw_value bpp seed x y).
+  translate bpp (tTo (cBpp c)) (draw_value (fmt_bpp bpp) seed x y).
 Proof. exact newfb_translate. Qed.
 
 (* SetDesktopSize: no size change unless the application performs it *)
@@ -97,16 +97,29 @@ Proof. exact setdesktop_reply. Qed.
 
 Theorem C16_setdesktopsize_others : forall hookres c,
   let c1 := setdesktop_one false hookres c in
-  (hookres = 0 -> cReqChange c1 = c16_reason_other) /\ (hookres <> 0 -> c1 = c) /\
+  (hookres = 0 -> sds_keeps_own_answer && (cReqChange c =? c16_reason_client) = false ->
+   cReqChange c1 = c16_reason_other) /\ (hookres <> 0 -> c1 = c) /\
   cNewFBPending c1 = cNewFBPending c /\ cLastErr c1 = cLastErr c.
 Proof. exact setdesktop_other. Qed.
 
-Theorem C16_setdesktopsize_refusal_sent : forall st hookres c,
+(* the update that IMMEDIATELY follows a refusal carries it (per-step fact; the history-level statement
+   "a client's own request is answered" is refuted below: F31) *)
+Theorem C16_setdesktopsize_refusal_next_send : forall st hookres c,
   hookres <> 0 -> cUseExt c = true -> cUseNewFB c = true -> cScaled c = None ->
   exists c2, send_client st (setdesktop_one true hookres c) =
              Some (c2, Some (1, [WExt c16_reason_client hookres (sW st) (sH st)])) /\
              cNewFBPending c2 = false /\ cReqChange c2 = 0 /\ cLastErr c2 = 0.
 Proof. exact setdesktop_refusal_sent. Qed.
+
+(* F31 (open): between a refusal and the update that would carry it another client's request is accepted:
+   the refused client is told "other client" with its own status 3 - its request is never answered.
+   The full statement (C16_own_request_answered: the reason/status of a client whose own answer is pending
+   survives every operation of the other clients) is in notes/fix_C16_4_model.diff, valid with notes/fix_C16_4.diff *)
+Theorem C16_own_request_answered_refuted :
+  exists st st', run (init_state 12 8 4) f31_ops = Some st /\ Inv st /\
+    step st (OpTick 0) = Some (st', [(0%nat, (1, [WExt c16_reason_other 3 12 8]))]) /\
+    c16_reason_other <> c16_reason_client.
+Proof. exact refusal_answered_refuted. Qed.
 
 (* scaled screens (only their size bookkeeping is in the model): since fix_C16_2 rfbNewFramebuffer rebuilds
    the scaledScreenNext chain for the new framebuffer; the former F12 witness now tells the client 12x8 *)
